@@ -200,6 +200,32 @@ async def s_exception_in_body_map() -> List[str]:
             await asyncio.wait_for(pool.gather_and_close(return_exceptions=True), 2)
         except asyncio.TimeoutError:
             viol.append(f"stars={stars}: gather_and_close hangs after the map")
+    # a raising *end callback* must not cost the call one of its concurrency slots
+    pool = TaskPool()
+    seen: List[int] = []
+
+    async def g(x):
+        seen.append(x)
+        await asyncio.sleep(0)
+
+    def bad_end(i):
+        raise RuntimeError("end callback fails")
+
+    # elements that cannot even be unpacked are skipped like any other failing call
+    pool.starmap(g, [(10,), 5, (11,)], num_concurrent=1)
+    pool.doublestarmap(g, [{"x": 12}, [("x", 7)], {"x": 13}], num_concurrent=1)
+    for _ in range(20):
+        await asyncio.sleep(TICK)
+    if sorted(seen) != [10, 11, 12, 13]:
+        viol.append(f"starmap/doublestarmap with a non-unpackable element in the middle processed {sorted(seen)}, expected [10, 11, 12, 13]")
+    seen.clear()
+    pool.map(g, range(4), num_concurrent=1, end_callback=bad_end)
+    for _ in range(30):
+        await asyncio.sleep(TICK)
+    if seen != [0, 1, 2, 3]:
+        viol.append(f"map with num_concurrent=1 and a raising end callback processed {seen} of [0, 1, 2, 3]")
+    pool.cancel_all()
+    await ticks()
     return viol
 
 
@@ -345,6 +371,26 @@ async def s_blocked_spawners() -> List[str]:
         pr.viol.append("cancelled group is still known")
     except Exception:
         pass
+    # two requests waiting for room at the same time, both served afterwards: every invocation is its own task
+    p2 = TaskPool(pool_size=1)
+    pr2 = Probe(p2)
+    p2.apply(pr2.work, kwargs={"tag": "X", "gate": "X"})
+    await ticks()
+    g1 = p2.apply(pr2.work, kwargs={"tag": "Y", "gate": "Y"})
+    g2 = p2.apply(pr2.work, kwargs={"tag": "Z", "gate": "Z"})
+    await ticks()
+    pr2.gate("X").set()
+    await ticks(4)
+    pr2.gate("Y").set()
+    pr2.gate("Z").set()
+    await ticks(6)
+    i1, i2 = p2.get_group_ids(g1), p2.get_group_ids(g2)
+    if i1 & i2 or len(i1) != 1 or len(i2) != 1 or (i1 | i2) != {1, 2}:
+        pr.viol.append(f"two queued requests got task ids {sorted(i1)} and {sorted(i2)}, expected one each of 1 and 2")
+    if sorted(pr2.started) != ["X", "Y", "Z"]:
+        pr.viol.append(f"invocations run: {sorted(pr2.started)}, expected X, Y, Z once each")
+    if p2._enough_room._value != 1:
+        pr.viol.append(f"{p2._enough_room._value} of 1 slots free after both queued requests finished")
     return pr.viol
 
 
@@ -481,6 +527,23 @@ async def s_lock_unlock() -> List[str]:
         viol.append("a rejected request left a group behind")
     pool.unlock()
     pool.unlock()
+    from asyncio_taskpool.exceptions import TaskGroupAlreadyExists
+
+    calls = []
+
+    async def cw(tag):
+        calls.append(tag)
+
+    pool.apply(cw, args=("first",), group_name="dup")
+    for call in (lambda: pool.apply(cw, args=("second",), group_name="dup"), lambda: pool.map(cw, ["third"], group_name="dup")):
+        try:
+            call()
+            viol.append("a duplicate group name was accepted while the first group had no task yet")
+        except TaskGroupAlreadyExists:
+            pass
+    await ticks()
+    if calls != ["first"]:
+        viol.append(f"func was called for a rejected duplicate-name request: {calls}")
     pool.apply(bad)
     await ticks()
     try:
@@ -555,6 +618,21 @@ async def s_lock_while_spawner_waits() -> List[str]:
     await ticks()
     pool.doublestarmap(pr.work, [{"tag": "M", "gate": "M"}] * 2, num_concurrent=2)
     await ticks()
+    p3 = TaskPool(pool_size=1)
+    pr3 = Probe(p3)
+    p3.apply(pr3.work, kwargs={"tag": "A", "gate": "A3"})
+    await ticks()
+    p3.apply(pr3.work, kwargs={"tag": "B", "gate": "B3"})  # accepted, waits for room
+    await ticks()
+    p3.lock()
+    pr3.gate("A3").set()
+    await ticks(4)
+    pr3.gate("B3").set()
+    await ticks(4)
+    if p3._enough_room._value != 1:
+        pr.viol.append(f"lock() while an accepted request waited for room: {p3._enough_room._value} of 1 slots free after everything finished")
+    if p3.pool_size != 1:
+        pr.viol.append(f"idle pool reports pool_size={p3.pool_size}, configured 1")
     pool.lock()
     pr.gate("A").set()
     await ticks(6)
@@ -623,6 +701,78 @@ async def s_queue() -> List[str]:
     await asyncio.gather(w, waiting, return_exceptions=True)
     if q2._unfinished_tasks != 0:
         viol.append("a consumer cancelled while waiting marked something")
+    return viol
+
+
+async def s_flush_with_cancelled_meta() -> List[str]:
+    """flush(return_exceptions=False) while a never-started, cancelled meta task exists and a task sits in a slow cancel
+    callback: flush must still wait for that task and must not forget it early (C13, C02)"""
+    from asyncio_taskpool import TaskPool
+
+    pool = TaskPool(pool_size=3)
+    pr = Probe(pool)
+    pool.apply(pr.work, num=2, end_callback=pr.on_end, cancel_callback=pr.slow_cancel())
+    await ticks()
+    pool.cancel(0)
+    await ticks()  # task 0 sits in its slow cancel callback
+    g = pool.apply(pr.work)
+    pool.cancel_group(g)  # the meta task of g never started: it finishes cancelled
+    fl = asyncio.create_task(pool.flush())
+    await ticks(4)
+    if fl.done():
+        pr.viol.append("flush() returned while a cancelled task was still inside its cancel callback")
+    if pool.num_cancelled != 1:
+        pr.viol.append(f"task 0 (inside its cancel callback) is not counted as cancelled any more (num_cancelled={pool.num_cancelled})")
+    pr.gate(("cancel", 0)).set()
+    await ticks()
+    try:
+        await asyncio.wait_for(fl, 2)
+    except Exception as e:
+        pr.viol.append(f"flush raised {type(e).__name__}")
+    if pr.end_cb != [0]:
+        pr.viol.append(f"end callbacks ran for {pr.end_cb}, expected [0]")
+    if pool._enough_room._value != 2:
+        pr.viol.append(f"{pool._enough_room._value} slots free with one task running in a pool of 3")
+    pool.cancel(1)
+    await ticks()
+    pr.gate(("cancel", 1)).set()
+    await ticks()
+    return pr.viol
+
+
+async def s_pool_size_assign() -> List[str]:
+    """assigning pool_size on an idle pool is enforced; assigning 0 admits nobody; a negative value changes nothing
+    (the parts of C15 that hold on this tree; reading/raising the limit while tasks run are known findings F5)"""
+    from asyncio_taskpool import TaskPool
+
+    viol: List[str] = []
+    pool = TaskPool(pool_size=1)
+    pr = Probe(pool)
+    pool.apply(pr.work, kwargs={"tag": "a", "gate": "a"}, num=2)
+    await ticks()
+    pool.pool_size = 0
+    await ticks()
+    if pr.started != ["a"]:
+        viol.append(f"limit 0 assigned with one task running and one waiting: started tasks are now {pr.started}")
+    try:
+        pool.pool_size = -1
+        viol.append("negative pool size accepted")
+    except ValueError:
+        pass
+    await ticks()
+    if pr.started != ["a"]:
+        viol.append(f"a rejected negative assignment admitted tasks: {pr.started}")
+    pool.cancel_all()
+    await ticks()
+    idle = TaskPool(pool_size=5)
+    idle.pool_size = 2
+    pr2 = Probe(idle)
+    idle.apply(pr2.work, num=4)
+    await ticks()
+    if idle.num_running != 2:
+        viol.append(f"limit 2 assigned on an idle pool: {idle.num_running} of 4 requested tasks run")
+    idle.cancel_all()
+    await ticks()
     return viol
 
 
@@ -721,7 +871,7 @@ async def s_control_session() -> List[str]:
     viol: List[str] = []
     pool, twin = Dummy(), Dummy()
     lines = ["add 1", "add 1 -b 5", "nope", "add", "add x", "-h", "add -h", "nothing", "empty", "many 1 2 3 --sep -", "limit", "limit 5", "limit", "limit -1",
-             "wait-boom", "wait-boom -f", "don't", "add 1 -b it's", 'limit "7', "stat\\", "big", "add -h", "add 2 -b 2"]
+             "wait-boom", "wait-boom -f", "clamp 5 -l 7", "clamp -h", "don't", "add 1 -b it's", 'limit "7', "stat\\", "big", "add -h", "add 2 -b 2"]
 
     async def expected(line: str):
         tok = line.split(" ")
@@ -751,6 +901,8 @@ async def s_control_session() -> List[str]:
                 return "boom"
             if line == "big":
                 return twin.big()
+            if line == "clamp 5 -l 7":
+                return str(twin.clamp(5, 7))
         except Exception:
             return None
         return None  # some message; only "exactly one non-empty reply" is checked
@@ -797,7 +949,7 @@ async def s_control_session() -> List[str]:
         viol.append(f"the session printed on stdout/stderr: {(out.getvalue() + err.getvalue())[:100]!r}")
     # command surface
     cmds = set(session._parser._commands.choices) if session._parser is not None and session._parser._commands else set()
-    want = {"add", "nothing", "empty", "many", "big", "wait-boom", "limit"}
+    want = {"add", "nothing", "empty", "many", "big", "wait-boom", "limit", "clamp"}
     if cmds != want:
         viol.append(f"commands exposed: {sorted(cmds)}, expected {sorted(want)}")
     return viol
@@ -818,11 +970,13 @@ SCENARIOS: Dict[str, Callable] = {
     "control_session": s_control_session,
     "cancelled_flush": s_cancelled_flush,
     "double_cancel_turns": s_double_cancel_turns,
+    "flush_with_cancelled_meta": s_flush_with_cancelled_meta,
+    "pool_size_assign": s_pool_size_assign,
 }
 
 BY_PROPERTY = {
     "C01": ["blocked_spawners", "lifecycle_mix", "lock_while_spawner_waits", "exception_in_body_map", "cancelled_flush"],
-    "C02": ["blocked_spawners", "lifecycle_mix", "slow_callbacks_flush", "exception_in_body_map", "lock_while_spawner_waits", "cancelled_flush"],
+    "C02": ["blocked_spawners", "lifecycle_mix", "slow_callbacks_flush", "exception_in_body_map", "lock_while_spawner_waits", "cancelled_flush", "flush_with_cancelled_meta"],
     "C03": ["lifecycle_mix", "slow_callbacks_flush", "cancel_semantics", "double_cancel_turns"],
     "C04": ["blocked_spawners", "lifecycle_mix"],
     "C05": ["exception_in_body_map", "group_cancel"],
@@ -833,9 +987,9 @@ BY_PROPERTY = {
     "C10": ["group_cancel", "blocked_spawners"],
     "C11": ["blocked_spawners", "lifecycle_mix"],
     "C12": ["exception_in_body_map", "lifecycle_mix", "lock_unlock"],
-    "C13": ["slow_callbacks_flush"],
+    "C13": ["slow_callbacks_flush", "flush_with_cancelled_meta"],
     "C14": ["stop_lifo"],
-    "C15": ["lock_while_spawner_waits"],
+    "C15": ["lock_while_spawner_waits", "pool_size_assign", "blocked_spawners"],
     "C20": ["queue"],
     "C16": ["control_session"],
     "C17": ["control_session"],
